@@ -53,6 +53,8 @@ type MemDB struct {
 	// ReuseBuffers makes the driver hand out []byte values from one scratch buffer per column that is
 	// overwritten by the next row (allowed by database/sql: the memory is owned by the driver)
 	ReuseBuffers bool
+	// Err is the error the faults report (nil = ErrInjected)
+	Err error
 	// Delivered counts the faults the driver actually returned (a planned fault that the code under test
 	// never reaches - e.g. the 3rd Prepare when the statement is prepared once - is not a fault)
 	Delivered int
@@ -64,6 +66,17 @@ var (
 	dsnSeq   int64
 	once     sync.Once
 )
+
+func (m *MemDB) fault() error {
+	if m.Err != nil {
+		return m.Err
+	}
+	return ErrInjected
+}
+
+// SQLErrors are the failures a driver is made to report: database/sql gives some error values a meaning of its own
+// for *its* callers (sql.ErrNoRows from QueryRow.Scan) - coming from a driver's Prepare, Query or Next they are failures.
+var SQLErrors = []error{nil, nil, sql.ErrNoRows, io.ErrUnexpectedEOF, fmt.Errorf("driver: %w", io.EOF)}
 
 // New creates a fresh database and returns it together with an open *sql.DB.
 func New() (*MemDB, *sql.DB) {
@@ -114,7 +127,7 @@ func (c *memConn) Prepare(query string) (driver.Stmt, error) {
 	c.m.Prepared = append(c.m.Prepared, query)
 	if c.m.FailPrepareAt == n {
 		c.m.Delivered++
-		return nil, ErrInjected
+		return nil, c.m.fault()
 	}
 	return &memStmt{m: c.m, query: query}, nil
 }
@@ -142,7 +155,7 @@ func (s *memStmt) Exec(args []driver.Value) (driver.Result, error) {
 	s.m.Execs = append(s.m.Execs, Call{Query: s.query, Args: append([]driver.Value(nil), args...)})
 	if s.m.FailExecAt == n {
 		s.m.Delivered++
-		return nil, ErrInjected
+		return nil, s.m.fault()
 	}
 	return driver.RowsAffected(1), nil
 }
@@ -152,7 +165,7 @@ func (s *memStmt) Query(args []driver.Value) (driver.Rows, error) {
 	s.m.Queries = append(s.m.Queries, Call{Query: s.query, Args: append([]driver.Value(nil), args...)})
 	if s.m.FailQuery {
 		s.m.Delivered++
-		return nil, ErrInjected
+		return nil, s.m.fault()
 	}
 	return &memRows{m: s.m}, nil
 }
@@ -168,7 +181,7 @@ func (r *memRows) Close() error      { return nil }
 func (r *memRows) Next(dest []driver.Value) error {
 	if r.m.FailNextAt == r.pos {
 		r.m.Delivered++
-		return ErrInjected
+		return r.m.fault()
 	}
 	if r.pos >= len(r.m.Rows) {
 		return io.EOF
